@@ -163,6 +163,9 @@ func GenConfig(prop, tier string, seed uint64) Config {
 	if (prop == "C22" || prop == "C03") && c.KF != "" && r.Chance(0.4) {
 		c.KF = []string{"mmapped-chunks-of-duplicate-series-ref-lost-after-snapshot-restart", "kill-during-head-chunk-repair-leaves-newer-files-and-loses-wal-samples"}[r.Intn(2)]
 	}
+	if prop == "C15" && c.KF != "" && r.Chance(0.5) {
+		c.KF = "wal-keeps-records-of-series-whose-label-record-was-dropped"
+	}
 	if prop == "C12" && (c.KF != "" && r.Chance(0.6) || c.KF == "" && r.Chance(0.1)) {
 		c.KF = "not-counter-reset-hint-kept-after-deleted-predecessor"
 	}
@@ -207,6 +210,9 @@ func GenConfig(prop, tier string, seed uint64) Config {
 		if r.Chance(0.3) {
 			c.Crash, c.ImgCap, c.TornMode, c.Queue = true, 8, 0, 0
 		}
+	case "C15":
+		c.WALSegKB = 32
+		c.NSeries = r.Range(3, 8)
 	case "C22":
 		c.FastStart = r.Chance(0.5)
 		c.NSeries = r.Range(3, 8)
@@ -251,6 +257,9 @@ func profileWeights(prop string, c Config, r *prng.R) weights {
 		w.del, w.cleanTomb, w.compact = 12, 5, 8
 	case "C09", "C07", "C08":
 		w.compact, w.compactHead, w.compactOOO, w.burst = 12, 2, 4, 20
+		if prop == "C07" {
+			w.del, w.compactStale, w.compactSel = 6, 2, 2
+		}
 	case "C15", "C22":
 		w.compact, w.restart, w.compactStale, w.compactSel = 10, 6, 3, 3
 	case "C52":
